@@ -3,7 +3,7 @@
  "name": "gen64_test_range2",
  "props": ["C16"],
  "level": "U",
- "tier": "wip",
+ "tier": "quick",
  "harness": "h_gen_range",
  "defines": ["RANGE_OP=0", "GEN64_CB_ENUM"],
  "enforce": ["ext2fs_test_block_bitmap_range2"],
@@ -22,7 +22,7 @@
  "name": "gen64_mark_range2",
  "props": ["C16"],
  "level": "U",
- "tier": "wip",
+ "tier": "quick",
  "harness": "h_gen_range",
  "defines": ["RANGE_OP=1", "GEN64_CB_ENUM"],
  "enforce": ["ext2fs_mark_block_bitmap_range2"],
@@ -41,7 +41,7 @@
  "name": "gen64_unmark_range2",
  "props": ["C16"],
  "level": "U",
- "tier": "wip",
+ "tier": "quick",
  "harness": "h_gen_range",
  "defines": ["RANGE_OP=2", "GEN64_CB_ENUM"],
  "enforce": ["ext2fs_unmark_block_bitmap_range2"],
